@@ -103,6 +103,9 @@ type Summary struct {
 	Completed  bool                     `json:"completed"`
 	Exhaustive map[string]bool          `json:"exhaustive,omitempty"`
 	Note       string                   `json:"note,omitempty"`
+	// Digests (determinism self-test): one digest per run of what the run
+	// observed (non-trivial keys, counters, verdict), keyed world/idx.
+	Digests map[string]string `json:"digests,omitempty"`
 }
 
 type SummaryViolation struct {
@@ -209,6 +212,7 @@ func RunWorker(t *testing.T) {
 	onlyIdx := envInt("VERIF_ONLY_IDX", -1)
 	maxViol := envInt("VERIF_MAX_VIOL", 3)
 	journalPlans := os.Getenv("VERIF_JOURNAL_PLANS") != ""
+	digests := os.Getenv("VERIF_DIGESTS") != ""
 	resumeWorld, resumeIdx := "", -1
 	if rs := os.Getenv("VERIF_RESUME"); rs != "" {
 		if i := strings.LastIndex(rs, ":"); i > 0 {
@@ -294,7 +298,38 @@ func RunWorker(t *testing.T) {
 					os.WriteFile(journal+".plan", bs, 0o644)
 				}
 			}
-			res := w.Exec(t, plan, false)
+			res := w.Exec(t, plan, os.Getenv("VERIF_TRACE") != "")
+			if os.Getenv("VERIF_TRACE") != "" {
+				for _, l := range res.Trace {
+					fmt.Println("TRACE", l)
+				}
+				bs, _ := json.Marshal(plan.Cfg)
+				fmt.Println("CFG", string(bs))
+				for _, k := range res.Nontrivial {
+					fmt.Println("NONTRIVIAL", k)
+				}
+				fmt.Println("COUNTERS", res.Counters, "VIOL", res.Viol)
+			}
+			if digests {
+				vs := ""
+				if res.Viol != nil {
+					vs = res.Viol.Class + "|" + res.Viol.Sig + "|" + fmt.Sprint(res.Viol.OpIdx)
+				}
+				ck := make([]string, 0, len(res.Counters))
+				for k, v := range res.Counters {
+					if k == "storage_calls" || strings.HasPrefix(k, "inputs_") {
+						// the number of storage calls of a cascade depends on Go's map
+						// iteration order inside the engine (no observable effect)
+						continue
+					}
+					ck = append(ck, fmt.Sprintf("%s=%d", k, v))
+				}
+				sort.Strings(ck)
+				if sum.Digests == nil {
+					sum.Digests = map[string]string{}
+				}
+				sum.Digests[fmt.Sprintf("%s/%d", w.Name, idx)] = Sha(strings.Join(res.Nontrivial, "\n") + "#" + strings.Join(ck, ",") + "#" + vs + "#" + fmt.Sprint(res.SimNanos))
+			}
 			sum.Runs++
 			sum.RunsByWorld[w.Name]++
 			sum.SimNanos += res.SimNanos
